@@ -118,6 +118,53 @@ fn run_t<T: Dyn>(out: &mut Out, rng: &mut Rng, n: usize, routes: &Vec<Vec<Option
     }
 }
 
+/// RGB-family types across RGB standards: the direct conversion `A<S1> -> A<S2>` (TypeId shortcuts: same standard -> reinterpret, same space ->
+/// transfer functions only, else via Xyz) must equal the step-by-step route through Rgb (and through Xyz), and convert back.
+macro_rules! cross_standard { ($out:expr, $rng:expr, $n:expr, $t:ty) => {{
+    type T = $t; let (out, rng, n): (&mut Out, &mut Rng, usize) = ($out, $rng, $n);
+    use palette::cast::{from_array, into_array};
+    use palette::convert::FromColorUnclamped;
+    use palette::encoding::{AdobeRgb, DisplayP3, Linear, Rec2020, Rec709, Srgb};
+    use palette::rgb::Rgb; use palette::{Hsl, Hsv, Hwb};
+    let tol = if T::TAG == "f32" { 2e-5 } else { 1e-6 };   // compared as encoded RGB of the destination standard; matrices 7-digit (3·1.5e-7·…)
+    let mut cols: Vec<[f64; 3]> = vec![];
+    for h in [0.0, 15.0, 60.0, 119.5, 180.0, 240.0, 300.0, 359.0] { for s in [0.0, 0.25, 0.7, 1.0] { for v in [0.05, 0.3, 0.5, 0.9, 1.0] { cols.push([h, s, v]); } } }
+    for _ in 0..n { cols.push([rng.range(0.0, 360.0), rng.unit(), rng.range(0.02, 1.0)]); }
+    macro_rules! pair { ($A:ident, $s1:ty, $s2:ty, $n1:expr, $n2:expr, $hwb:expr) => {{
+        for c in &cols {
+            let c = if $hwb { let w = c[1] * 0.5; let b = (1.0 - c[2]) * 0.5; [c[0], w, b] } else { *c };
+            let a: [T; 3] = arr_of(c);
+            let src: $A<$s1, T> = from_array(a);
+            let direct: [T; 3] = into_array(<$A<$s2, T>>::from_color_unclamped(src));
+            let via_rgb: [T; 3] = into_array(<$A<$s2, T>>::from_color_unclamped(<Rgb<$s2, T>>::from_color_unclamped(<Rgb<$s1, T>>::from_color_unclamped(from_array::<$A<$s1, T>>(a)))));
+            // compare as Rgb of the destination standard (hue of a gray etc. do not matter there)
+            let r1: [T; 3] = into_array(<Rgb<$s2, T>>::from_color_unclamped(from_array::<$A<$s2, T>>(direct)));
+            let r2: [T; 3] = into_array(<Rgb<$s2, T>>::from_color_unclamped(from_array::<$A<$s2, T>>(via_rgb)));
+            if !(finite(&r1) && finite(&r2)) { out.count("cls:nonfinite-skipped"); continue; }
+            let e = (0..3).map(|k| (r1[k].to64() - r2[k].to64()).abs()).fold(0.0, f64::max);
+            out.maxi(&format!("cross-standard-err:{}", T::TAG), e);
+            out.check(e <= tol, &format!("commute-standards:{}:{}->{}:{}", stringify!($A), $n1, $n2, T::TAG), || format!("{:?}: direct {:?} (= Rgb {:?}), via Rgb {:?} (= Rgb {:?})", a, direct, r1, via_rgb, r2));
+            let back: [T; 3] = into_array(<$A<$s1, T>>::from_color_unclamped(from_array::<$A<$s2, T>>(direct)));
+            let rb: [T; 3] = into_array(<Rgb<$s1, T>>::from_color_unclamped(from_array::<$A<$s1, T>>(back)));
+            let r0: [T; 3] = into_array(<Rgb<$s1, T>>::from_color_unclamped(from_array::<$A<$s1, T>>(a)));
+            // a colour outside the destination standard's gamut is not representable in its hexcone form (negative components are lost): only in-gamut
+            let rs2: [T; 3] = into_array(<Rgb<$s2, T>>::from_color_unclamped(<Rgb<$s1, T>>::from_color_unclamped(from_array::<$A<$s1, T>>(a))));
+            let in_gamut = rs2.iter().all(|v| v.to64() >= 0.0 && v.to64() <= 1.0);
+            if finite(&rb) && in_gamut { let e = (0..3).map(|k| (rb[k].to64() - r0[k].to64()).abs()).fold(0.0, f64::max);
+                // pure power laws amplify the matrix mismatch near black (Hölder, DESIGN §3 C01): 4e-3 there, else tol
+                let t2 = if $n1 == "AdobeRgb" || $n2 == "AdobeRgb" { 4e-3 } else { 10.0 * tol };
+                out.check(e <= t2, &format!("roundtrip-standards:{}:{}->{}:{}", stringify!($A), $n1, $n2, T::TAG), || format!("{:?} -> {:?} -> {:?}", a, direct, back)); }
+        }
+        out.count("cls:cross-standard-pair");
+    }} }
+    macro_rules! all { ($A:ident, $hwb:expr) => {
+        pair!($A, Srgb, Linear<Srgb>, "Srgb", "LinSrgb", $hwb); pair!($A, Linear<Srgb>, Srgb, "LinSrgb", "Srgb", $hwb); pair!($A, Srgb, Rec709, "Srgb", "Rec709", $hwb); pair!($A, Rec709, Linear<Srgb>, "Rec709", "LinSrgb", $hwb);
+        pair!($A, Rec2020, Linear<Rec2020>, "Rec2020", "LinRec2020", $hwb); pair!($A, Srgb, DisplayP3, "Srgb", "DisplayP3", $hwb); pair!($A, DisplayP3, Rec2020, "DisplayP3", "Rec2020", $hwb); pair!($A, Srgb, AdobeRgb, "Srgb", "AdobeRgb", $hwb);
+        pair!($A, Srgb, Srgb, "Srgb", "Srgb", $hwb);
+    } }
+    all!(Hsv, false); all!(Hsl, false); all!(Hwb, true);
+}} }
+
 pub fn run(tier: &str, seed: u64, dir: &str) {
     let mut out = Out::new("C01", dir);
     let mut rng = Rng::new(seed);
@@ -125,5 +172,7 @@ pub fn run(tier: &str, seed: u64, dir: &str) {
     let n = if tier == "thorough" { 1500 } else { 60 };
     run_t::<f32>(&mut out, &mut rng, n, &routes);
     run_t::<f64>(&mut out, &mut rng, n, &routes);
+    cross_standard!(&mut out, &mut rng, n, f32);
+    cross_standard!(&mut out, &mut rng, n, f64);
     out.finish(dir, "");
 }
